@@ -349,15 +349,21 @@ def checkRelations : List Relation → Chk Unit
     | .error e => .error e
     | .ok _ => checkRelations rs
 
-/-- (tids): declaration before use, no id declared twice -/
-def checkTids (declared : List TId) : List TableDecl → Relation → Chk Unit
-  | [], main => needTids declared main.kind.tids
-  | t :: ts, main =>
+/-- (tids) over the table list: declaration before use, no id declared twice; returns the ids declared -/
+def checkTables (declared : List TId) : List TableDecl → Chk (List TId)
+  | [] => .ok declared
+  | t :: ts =>
     match needTids declared t.relation.kind.tids with
     | .error e => .error e
     | .ok _ =>
       if declared.contains t.id then .error (.duplicateTid t.id)
-      else checkTids (t.id :: declared) ts main
+      else checkTables (t.id :: declared) ts
+
+/-- (tids): the tables, then the main relation (which may use all of them) -/
+def checkTids (rq : RelationalQuery) : Chk Unit :=
+  match checkTables [] rq.tables with
+  | .error e => .error e
+  | .ok d => needTids d rq.relation.kind.tids
 
 /-- (defs): every cid defined exactly once in the whole query -/
 def checkDefs (rq : RelationalQuery) : Chk Unit :=
@@ -367,7 +373,7 @@ def checkDefs (rq : RelationalQuery) : Chk Unit :=
 
 /-- C16 as an executable predicate -/
 def wfRq (rq : RelationalQuery) : Chk Unit :=
-  match checkTids [] rq.tables rq.relation with
+  match checkTids rq with
   | .error e => .error e
   | .ok _ =>
     match checkDefs rq with
@@ -448,7 +454,7 @@ def laxRelations : List Relation → Chk Unit
     | .ok _ => laxRelations rs
 
 def wfRqLax (rq : RelationalQuery) : Chk Unit :=
-  match checkTids [] rq.tables rq.relation with
+  match checkTids rq with
   | .error e => .error e
   | .ok _ =>
     match checkDefs rq with
